@@ -43,7 +43,7 @@ from checks import validgen as vg
 from checks import validcomp as vc
 from checks.validcomp import COMP, NO_STATE, PRESENT, MULTI, OPER
 
-LEAN_TARGETS = ["LyModel.Props.C02", "LyModel.Props.C02Full"]
+LEAN_TARGETS = ["LyModel.Props.C02", "LyModel.Props.C02Full", "LyModel.Props.C02Xpath"]
 AUDIT = "Audit/C02.lean"
 GENERATED = ["ValidConsts", "OpsFacts"]
 HARNESS = "api_val"
@@ -60,7 +60,8 @@ ASSUMPTIONS = [
 TRUSTED = ["tools/extractors/ops.py (reads the three facts about operations from tree_schema.h, schema_compile_node.c, validation.c)",
            "tools/checks/validgen.py (schema/instance generator, mutations, XML/JSON encoders)", "tools/vlib/treegen.py", "harness/treeproto.h (tree loader and canonical dump)"]
 
-APPTAG = {"NoMandChoice": "missing-choice", "NoMin": "too-few-elements", "NoMax": "too-many-elements", "NoUniq": "data-not-unique"}
+APPTAG = {"NoMandChoice": "missing-choice", "NoMin": "too-few-elements", "NoMax": "too-many-elements", "NoUniq": "data-not-unique",
+          "NoMust": "must-violation", "NoReqInst": "instance-required"}
 V_OPTS = [0, PRESENT, NO_STATE, MULTI, OPER, NO_STATE | MULTI, NO_STATE | PRESENT, OPER | MULTI]
 
 
@@ -74,9 +75,36 @@ class Case:
         self.base = (info or {}).get("opts", 0)
 
 
-def features(s):
-    """schema features the finding predicates look at"""
+def _case_path(sn):
+    """the (choice, case) pairs around a data node, up to its data parent"""
+    out, p = [], sn.parent
+    while p is not None and p.kind in ("case", "choice"):
+        if p.kind == "case":
+            out.append((p.parent, p))
+        p = p.parent
+    return out
+
+
+def _empty_np(n):
+    return n.sn.kind == "container" and not n.sn.presence and all(_empty_np(k) for k in n.kids)
+
+
+def _empty_np_next_to_other_case(forest):
+    """some sibling list holds a non-presence container without explicit descendants and a node of ANOTHER case of one of its choices"""
+    for n in forest:
+        if _empty_np(n):
+            mine = dict((id(ch), ca) for ch, ca in _case_path(n.sn))
+            for m in forest:
+                if m is not n and any(id(ch) in mine and mine[id(ch)] is not ca for ch, ca in _case_path(m.sn)):
+                    return True
+    return any(_empty_np_next_to_other_case(n.kids) for n in forest if n.kids)
+
+
+def features(s, t=None):
+    """schema (and, with `t`, instance) features the finding predicates look at"""
     f = set()
+    if t is not None and not isinstance(s, vc.ReplaySchema) and _empty_np_next_to_other_case(t):
+        f.add("empty-np-container-next-to-other-case")
     for n in s.nodes:
         for u in getattr(n, "uniques", []):
             for leaf in u:
@@ -108,6 +136,8 @@ def classify(component, what, case):
         return "F176"
     if law in ("iff-rejected", "tag") and case.get("impl_kind") == "NoMax" and "leaflist-more-defaults-than-max" in feat:
         return "F320"
+    if law in ("iff-rejected", "tag") and case.get("impl_kind") == "DupCase" and "empty-np-container-next-to-other-case" in feat:
+        return "F321"
     return None
 
 
@@ -122,6 +152,12 @@ def run(cx, nsch=None, nnest=None, nfam=None):
     schemas, cases = [], load_corpus(cx)
     witness_f320(cx, cases)
     compiler_guarantee(cx)
+    # F321 witness (an empty non-presence container of one case next to data of another case), one more case on every run: the
+    # unrepaired lyd_validate_cases rejects it (DupCase) and so does the model (Quirks.casesCountDefault read off the source), the
+    # specification is satisfied -> law iff fails, classify() names F321; repaired: both accept, the container is removed
+    s321, t321 = vg.witness_f321()
+    s321._origin = "witness-F321"
+    cases.append(Case(s321, t321, None, None, cx.sub_rng("f321")))
     nnest = cx.n(30, 150) if nnest is None else nnest
     # directed families (validgen.FAMILIES): `nfam` schemas of each, one template per construct of the full schema language
     fams = [f for f in vg.FAMILIES if f[0] not in vg.DISABLED_FAMILIES]
@@ -164,6 +200,7 @@ def run(cx, nsch=None, nnest=None, nfam=None):
         process(cx, all_schemas, cases[lo:lo + step], lo)
     classes(cx, origin)
     operations(cx, cases)
+    xpath_family(cx)
 
 
 def witness_f320(cx, cases):
@@ -206,6 +243,165 @@ def compiler_guarantee(cx):
 
 
 PRUNED = ("drop-mandatory", "drop-choice", "below-min")
+
+# ---- XPath-dependent constraints (must, leafref require-instance, when): op `valx` ---------------------------------------------
+# False: the model op `valx` (LyModel/Valid/XpValid.lean) is not wired yet, the family runs on libyang alone (modules compile, verdict
+# and error-kind mix, order law); True: token-for-token differential like `val`
+XP_MODEL = True
+# `when` statements in the family: off until the model's when hook is filled (LyModel/Valid/XpValid.lean)
+XP_WHEN = True
+# OPEN DISAGREEMENT (reported): where validation goes on after a false `when` on an explicit node (MULTI_ERROR: after the NoWhen error;
+# OPERATIONAL: the false when is only a warning) libyang leaves the node without LYD_WHEN_TRUE, and every must / when that touches it
+# then fails with "Must ... depends on a node with a when condition, which has not been evaluated." (kind Other, empty path); the
+# model evaluates the must (NoMust or nothing).  Until decided, schemas with a when run under the option sets 0 and PRESENT only.
+XP_WHEN_CONTINUE = False
+
+
+# KNOWN DEVIATION of the model (documented in XpWhen.lean): an EXPLICIT EMPTY non-presence container whose own when is false gives NoWhen in
+# libyang, the model deletes it silently.  Mutants of schemas with a when on a non-presence container run without their empty
+# non-presence containers until the model sets LYD_WHEN_TRUE in implNode.
+XP_WHEN_EMPTY_NP = False
+
+
+XP_SPECX = True
+
+
+def has_when(s):
+    return any(getattr(n, "when", None) for n in s.nodes)
+
+
+def xp_laws(cx, c, ri, spec):
+    """iff / tag / apptag of eval_case for a case of the xpath family; libyang's kind Other (a must that cannot be evaluated) counts as NoMust"""
+    for o in xp_opts(c.s):
+        r = ri.get("x%d.%d" % (c.k, o), ["err", "NoReply"])
+        if r[0] != "ok" or o & OPER:
+            continue
+        sp = spec.get("p%d.%d" % (c.k, o & ~(MULTI | OPER)), ["err", "NoReply"])
+        if sp[0] != "ok":
+            cx.notes.append("specx op failed: %s" % " ".join(sp[:3]))
+            cx.dist["xpath-law:specx failed"] += 1
+            continue
+        viol = set(sp[2:])
+        accepted = r[1] == "valid"
+        cx.count(("xplaw", c.s.name, tg.tok(c.t), o), True, "xpath-law:" + ("accept" if accepted else "reject"))
+        if accepted and viol:
+            cx.fail(COMP, "libyang accepts an instance that violates the schema: " + ",".join(sorted(viol)), payload(c, "iff-accepted", opts=o, spec=sorted(viol)))
+        elif not accepted:
+            k, tag, path = first_err(r)
+            k2 = "NoMust" if k == "Other" else k
+            if not viol:
+                cx.fail(COMP, "libyang rejects an instance that satisfies every constraint of the schema (%s)" % k,
+                        payload(c, "iff-rejected", opts=o, impl_kind=k, impl_path=path))
+            elif k2 not in viol:
+                cx.fail(COMP, "the reported error (%s) is not a constraint the instance violates (%s)" % (k, ",".join(sorted(viol))),
+                        payload(c, "tag", opts=o, impl_kind=k, spec=sorted(viol)))
+            elif k != "Other" and tag != APPTAG.get(k):
+                cx.fail(COMP, "error-app-tag %s on a %s error (RFC 7950: %s)" % (tag, k, APPTAG.get(k)), payload(c, "apptag", opts=o, impl_kind=k))
+
+
+def xp_opts(s):
+    if XP_WHEN_CONTINUE or not has_when(s):
+        return XP_OPTS
+    return [0, PRESENT]
+XP_OPTS = [0, PRESENT, MULTI, OPER]
+# OPEN DISAGREEMENT (reported): with two instances of one leaf (mutation dup-leaf, seen under MULTI_ERROR where validation goes on
+# after the Dup errors) libyang's child step finds only the FIRST instance (hash lookup of lyd_find_sibling_val), the model's
+# node-set has both: must "../a > 0" with a = -1, a = 5 is false in libyang, true in the model.  dup-leaf stays out until decided.
+XP_DUP_LEAF = False
+XP_OLD_MUTATIONS = ["drop-mandatory", "bad-value", "above-max", "dup-key"] + (["dup-leaf"] if XP_DUP_LEAF else [])
+
+
+def xpath_family(cx, nsch=None, verbose=0):
+    """schemas of validgen.fam_xpath (1-3 must, 1-2 leafref): instances from the generator (leafrefs repaired to existing targets, musts
+    left to chance), each also with the mutations break-must / break-leafref and a few of the old ones.  The specification op does not
+    know these statements, so no iff / tag law here: the tie is the correspondence `valx` (same request line to harness and model)."""
+    rng = cx.sub_rng("xpath")
+    n = cx.n(6, 40) if nsch is None else nsch
+    per = cx.n(5, 15)
+    schemas, cases = [], []
+    from checks import c08
+    mask = c08.live_mask(cx)      # the XPath engine of the model mirrors exactly the deviations still listed as `known` (C08)
+    for i in range(n):
+        s = vg.fam_xpath(rng, i, nwhen=(rng.choice([0, 1, 1]) if XP_WHEN else 0))
+        s._origin = "xpath"
+        s.xpmask = mask
+        schemas.append(s)
+        r = cx.sub_rng("xinst%d" % i)
+        g = vg.XTreeGen(r, s, density=r.choice([0.7, 0.85, 0.95]), max_inst=r.choice([2, 3]))
+        mu = vg.Mutator(r, s, g)
+        for _ in range(per):
+            t = g.tree()
+            cases.append(Case(s, t, None, None, r))
+            for k in vg.XP_MUTATIONS + XP_OLD_MUTATIONS:
+                m = mu.mutate(t, k)
+                if m is not None:
+                    mt = m[0]
+                    if not XP_WHEN_EMPTY_NP and any(n.np_cont() and getattr(n, "when", None) for n in s.nodes):
+                        mt = vg.prune_np(mt) or mt
+                    cases.append(Case(s, mt, k, m[1], r))
+    lines = []
+    for k, c in enumerate(cases):
+        c.k = k
+        d, x = tg.hx(c.s.dsl()), tg.hx(c.s.xdsl())
+        for o in xp_opts(c.s):
+            lines.append("x%d.%d %s valx %s %s %d %s" % (k, o, COMP, d, x, o, tg.tok(c.t)))
+        lines.append("y%d.0 %s valx %s %s %d %s" % (k, COMP, d, x, 0, tg.tok(c.sh)))
+
+    def kind(line, reply):
+        return "valx:" + " ".join(reply[:2])
+    if XP_MODEL:
+        ri, rm = vc.differential(cx, HARNESS, schemas, lines, kind)
+    else:
+        ri = vc.run_impl(cx, HARNESS, schemas, lines)
+        for l in lines:
+            cx.count(" ".join(l.split()[2:]), True, kind(l, ri.get(l.split()[0], ["err", "NoReply"])))
+    for i, s in enumerate(schemas):
+        h = ri.get("S%d" % i, ["err", "NoReply"])
+        if h[0] != "ok":
+            cx.fail(COMP, "a schema of the xpath family does not compile: " + " ".join(h[:2]), dict(vc.schema_payload(s), law="xpath-compile"))
+    # (S) laws iff / tag against the specification extended by must / leafref (model op `specx`, same arguments as `spec`; it knows no
+    # `when`, so only for schemas without one)
+    specl = []
+    for c in cases:
+        if XP_SPECX and not has_when(c.s):
+            d, x = tg.hx(c.s.dsl()), tg.hx(c.s.xdsl())
+            for o in sorted(set(o & ~(MULTI | OPER) for o in xp_opts(c.s))):
+                specl.append("p%d.%d %s specx %s %s %d %s" % (c.k, o, COMP, d, x, o, tg.tok(c.t)))
+    spec = cx.run_model(vc.heads(schemas) + specl) if specl else {}
+    for c in cases:
+        if XP_SPECX and not has_when(c.s):
+            xp_laws(cx, c, ri, spec)
+    mix = collections.Counter()
+    for c in cases:
+        a = ri.get("x%d.0" % c.k, ["err", "NoReply"])
+        b = ri.get("y%d.0" % c.k, ["err", "NoReply"])
+        if a[0] == "ok" and b[0] == "ok" and a != b:
+            cx.fail(COMP, "the reply depends on the order in which the siblings were created", payload(c, "order", canonical=a[:6], scrambled=b[:6]))
+        for o in xp_opts(c.s):
+            r = ri.get("x%d.%d" % (c.k, o), ["err", "NoReply"])
+            if r[0] != "ok":
+                mix["%s: no reply (%s)" % (c.kind or "generated", " ".join(r[:2]))] += 1
+                continue
+            if o == MULTI and r[1] == "invalid":
+                for e in r[3:]:
+                    cx.dist["valx:error-kind:" + vc.dec_err(e)[0]] += 1
+            if o == 0:
+                res = "valid" if r[1] == "valid" else "build-error" if r[1] == "build" else first_err(r)[0]
+                mix["%s: %s" % (c.kind or "generated", res)] += 1
+                if verbose and c.k < verbose:
+                    print("---- sample %d (%s %s)\n%s\ninstance:\n%s\nrequest: %s\nreply: %s" % (
+                        c.k, c.kind, c.info, c.s.yang(), tg.pretty(c.s, c.t), [l for l in lines if l.startswith("x%d.0 " % c.k)][0][:400],
+                        " ".join(r)[:600]))
+            elif o == OPER:
+                cx.dist["valx:operational:" + r[1]] += 1
+    cx._xp_schemas = schemas
+    cnt = [vg.xp_counts(s) for s in schemas]
+    text = ("xpath family (%s): %d schemas with %d must, %d leafref (%d with a key predicate), %d when; %d instances; first error at option 0 "
+            "per origin of the instance: %s" % ("differential with the model op valx" if XP_MODEL else "libyang alone, model op not wired",
+                                                 len(schemas), sum(c[0] for c in cnt), sum(c[1] for c in cnt), sum(c[2] for c in cnt),
+                                                 sum(c[3] for c in cnt), len(cases), ", ".join("%s %d" % kv for kv in sorted(mix.items()))))
+    cx.rule(text)
+    print("C02 distribution: " + text)
 CLASSES = ["plain", "full-without-unique", "full"]
 
 
@@ -280,7 +476,7 @@ def operations(cx, cases):
     rng = cx.sub_rng("ops")
     pick = [c for c in cases if getattr(c.s, "yang", None) and not isinstance(c.s, vc.ReplaySchema)
             and c.kind not in ("state-node", "missing-key") and not any(getattr(n, "when", None) for n in c.s.nodes)
-            and getattr(c.s, "_origin", None) != "witness-F320"]       # F320 is recorded for datastore validation (law iff)
+            and getattr(c.s, "_origin", None) not in ("witness-F320", "witness-F321")]       # F320 is recorded for datastore validation (law iff)
     rng.shuffle(pick)
     pick = pick[:cx.n(1500, 12000)]
     cx.rule("ops: %d of the instances above (valid and singly mutated) sent as rpc input, rpc output (reply) and notification content, XML "
@@ -446,7 +642,7 @@ def first_err(reply):
 
 
 def payload(c, law, **kw):
-    p = {"law": law, "mutation": c.kind, "info": c.info, "opts": kw.pop("opts", c.base), "features": features(c.s), "dump": tg.tok(c.t),
+    p = {"law": law, "mutation": c.kind, "info": c.info, "opts": kw.pop("opts", c.base), "features": features(c.s, c.t), "dump": tg.tok(c.t),
          "dump_sh": tg.tok(c.sh), "doc_sh": tg.tok(c.doc_sh), "xml": tg.hx(vg.render_xml(c.s, c.t)), "json": tg.hx(vg.render_json(c.s, c.t)),
          "xml_sh": tg.hx(vg.render_xml(c.s, c.doc_sh)), "json_sh": tg.hx(vg.render_json(c.s, c.doc_sh)),
          "instance_text": tg.pretty(c.s, c.t)[:3000]}
